@@ -195,7 +195,17 @@ def run_case(case):
                     # the same file through the real dump.py started as a real process in one of the ordinary
                     # environments (python -O, a POSIX locale, relative paths ...)
                     variant = seams.PROC_ROTATION[(k // 12) % len(seams.PROC_ROTATION)]
-                    res = seams.run_cli_proc([path, '-t', t], variant, tool='dump')
+                    argv = [path, '-t', t]
+                    if (k // 3) % 2:
+                        # the drawer type's own header file given explicitly - under a name that belongs to the OTHER
+                        # drawer type (a build directory, a renamed copy): -t says which drawer it is
+                        import shutil as _sh
+                        bd = os.path.join(d, 'build')
+                        os.makedirs(bd, exist_ok=True)
+                        alias = os.path.join(bd, ['nimitz', 'mex'][which] + '_pte.h')
+                        _sh.copyfile(hdr, alias)
+                        argv = rng.choice([[path, '-t', t, '-d', alias], ['-d', alias, '--drawer-type', t, path]])
+                    res = seams.run_cli_proc(argv, variant, tool='dump')
                     if res['out'] != ''.join(x + '\n' for x in lines) or res['exit'] != 0:
                         rec['file_same'] = False
                         rec['process'] = '%s: exit %s, %s' % (variant, res['exit'], (res['err'] or '')[-200:])
